@@ -147,7 +147,9 @@ Proof.
   split; [exact (pub_max_voltage_np1 W of_dec of_int wdiv wmul wone d rng mi v h es x y sy ntr st nsy strm
                    Hi Ht Hx Hy Hs Hs0 Hn Hsy Hv Hnp Hap Hlf H0 Hle Hty Hnn)|].
   split; [unfold mvs; rewrite map_length, firstn_length; unfold n; lia|].
-  intros c e0 dw Hc. unfold mvs. now apply chan_mv_map_firstn.
+  intros c e0 dw Hc. unfold mvs.
+  exact (chan_mv_map_firstn
+           (fun e => entry_value W of_dec of_int wdiv wmul wone rng mi mi (CG (gain e, O))) es n c e0 dw Hle Hc).
 Qed.
 Print Assumptions C16_max_voltage_from_reader_np1.
 
@@ -312,6 +314,7 @@ Proof. vm_compute. reflexivity. Qed.
 (* a 3-channel Neuropixels 1.0 AP file with different gains on the two voltage
    channels: C09's parser + range_volts give one entry per saved channel, the two
    voltage entries carry gains 500 and 250, the sync entry is 1 * maxint; ncv = 2 *)
+Definition nl : string := String (Ascii.ascii_of_nat 10) EmptyString.
 Definition small_np1_file : str :=
   lit ("typeThis=imec" ++ nl ++ "imDatPrb_type=0" ++ nl ++ "imAiRangeMax=0.6" ++ nl ++ "nSavedChans=3" ++ nl ++
        "snsApLfSy=2,0,1" ++ nl ++ "~imroTbl=(0,2)(0 0 0 500 250 1)(1 0 0 250 125 1)" ++ nl).
